@@ -132,6 +132,7 @@ package runtime
 //@ ensures [C15:readerr] calls(BR) == 1 && ret(BR,0,1) != nil ==> result == ret(BR,0,1) && calls(UB) == 0 && calls(SB) == 0 && calls(SS) == 0
 //@ ensures [C15:unmarshal] calls(BR) == 1 && ret(BR,0,1) == nil && implements(data, "encoding.BinaryUnmarshaler") ==> calls(UB) == 1 && recv(UB,0) == data && arg(UB,0,0) == ret(BB,0,0) && result == ret(UB,0,0)
 //@ ensures [C15:store] calls(SB) + calls(SS) <= 1 && (calls(SB) == 1 ==> arg(SB,0,1) == ret(BB,0,0) && result == nil) && (calls(SS) == 1 ==> result == nil)
+//@ ensures [C15:storekinds] (calls(SB) == 1 ==> dynkind(data) == 22 && rvKind(arg(SB,0,0)) == 23) && (calls(SS) == 1 ==> dynkind(data) == 22 && rvKind(arg(SS,0,0)) == 24)
 
 //@ func ByteStreamProducer$1
 //@ watch BM = closure (io.Closer).Close$bound
